@@ -241,4 +241,34 @@ mod k {
         frame_udpck::<7>();
     }
 
+
+    // ---- the checksum kernels on their own (quick): the frame harnesses above need minutes, these need seconds ----
+    /// VERIF: {"p":"C12","tier":"quick","fns":["packet::finish_netsum"],"bounds":"all 2^32 partial sums","oracle":"RFC 1071: the one's-complement sum folded to 16 bits is congruent to the partial sum modulo 65535 (and is 0 only for a zero sum), and the result is its complement - whatever number of carries the folding needs","covers":2,"unwind":4}
+    #[kani::proof]
+    #[kani::unwind(4)]
+    fn c12_checksum_fold_all_sums() {
+        let sum: u32 = kani::any();
+        let got = finish_netsum(sum);
+        let folded = !got as u32; // the 16-bit one's-complement sum before complementing
+        kani::cover!(sum > 0x1_0000 && (sum >> 16) + (sum & 0xffff) > 0xffff, "needs a second fold");
+        kani::cover!(sum == 0, "zero");
+        assert!(folded % 65535 == sum % 65535, "folded sum is congruent to the partial sum modulo 2^16 - 1");
+        assert!((folded == 0) == (sum == 0), "end-around carry: only a zero sum folds to zero");
+    }
+
+    /// VERIF: {"p":"C12","tier":"quick","fns":["packet::partial_netsum"],"bounds":"buffers of 0..=5 octets (all contents), any starting sum below 2^24","oracle":"RFC 1071: sum of the big-endian 16-bit words, an odd trailing octet padded with a zero octet on the right","covers":1,"unwind":5}
+    #[kani::proof]
+    #[kani::unwind(5)]
+    fn c12_partial_sum_of_short_buffers() {
+        let buf: [u8; 5] = kani::any();
+        let n: usize = kani::any();
+        kani::assume(n <= 5);
+        let start: u32 = kani::any();
+        kani::assume(start < (1 << 24));
+        let got = partial_netsum(start, &buf[..n]);
+        let w = |i: usize| -> u32 { if i < n { buf[i] as u32 } else { 0 } };
+        let want = start + ((w(0) << 8) | w(1)) + ((w(2) << 8) | w(3)) + (w(4) << 8);
+        kani::cover!(n == 5, "odd length");
+        assert!(got == want, "partial sum = sum of big-endian words, odd octet zero-padded");
+    }
 }
